@@ -127,7 +127,7 @@ def counter_correspondence(chk, n):
         for _ in range(rng.randrange(1, 10)):
             r = rng.random()
             if r < 0.55:
-                evs.append("a%d" % rng.choice([1, 499_999, 500_000, 500_001, 1_500_000, rng.randrange(1, 10_000_000), rng.randrange(1, 7200 * ec.US)]))
+                evs.append("a%d" % rng.choice([1, 499_999, 500_000, 500_001, 1_500_000, rng.randrange(1, 10_000_000), rng.randrange(1, 7200 * ec.US), 86_400 * ec.US, 90_000 * ec.US, 3 * 86_400 * ec.US + 1_234_567]))
             elif r < 0.8:
                 evs.append("k")
                 if not late or rng.random() < 0.5:
@@ -166,6 +166,11 @@ def counter_correspondence(chk, n):
         total = ec.td_us(d.duration)
         lines.append("counter 1000000 " + " ".join(evs))
         real.append("C %d %d%s" % (total, -1 if retained[0] is None else int(retained[0]), "".join(" %d" % p for p in pubs)))
+        restore_first = all(evs[i + 1:i + 2] == ["r"] for i, e in enumerate(evs) if e == "k")
+        if restore_first and any(b < a for a, b in zip(pubs, pubs[1:])) and not hasattr(chk, "_c11_counter_viol"):
+            # the statement itself: with the restore delivered before the first publish after each restart the retained
+            # life counter never goes backwards
+            chk._c11_counter_viol = {"events": evs, "published_total_seconds": pubs}
         if any(b < a for a, b in zip(pubs, pubs[1:])):
             dist["decreasing_real"] += 1
             if example_decrease is None:
@@ -427,6 +432,9 @@ def run(chk):
     n, bad, dist, ex = counter_correspondence(chk, 300 if quick else 3000)
     chk.correspondence("Heating total: real util.Duration + DurationEncoderCallback vs Lean Counter (published values, incl. late restores)", n, len(bad), distribution=dist, detail=bad[:3] if bad else None)
     chk.extra["k3_exhibit_on_real_Duration"] = ex
+    cv = getattr(chk, "_c11_counter_viol", None)
+    if cv is not None:
+        chk.violation("heating-total-decreases", f"the retained heat-pump life counter went backwards although every restore preceded the first publish after its restart: published {cv['published_total_seconds']} for the history {cv['events']} (aN = N us of heating, k = kill/restart, r = restore of the retained value)", {"kind": "counter", "events": cv["events"], "published": cv["published_total_seconds"]})
     chk.note(
         "K3 (restore after the first post-restart publish) is exhibited on the real Duration class (k3_exhibit_on_real_Duration) but is not reachable "
         "in the normal startup order: the broker delivers the retained burst right after SUBSCRIBE (Mqtt.__on_connect), whereas the first publish of "
